@@ -33,7 +33,7 @@ ASSUMPTIONS = ['no law is assumed of os.path.realpath: CPython 3.12\'s non-stric
                'contains no symbolic link is an argument about the operating system, not part of the model',
                'the file system does not change between the containment check and open() (no concurrent modification)',
                'file contents are decodable text; an undecodable file makes open().read() raise UnicodeDecodeError, which read_latex_file does not catch (not modelled)',
-               'requested names contain no NUL character (os.path.realpath raises ValueError on it, not modelled)']
+               'requested names contain no NUL character / lone surrogate (os.path.realpath raises ValueError on them; since repair F45 the library answers with no content; not modelled)']
 TRIVIAL_SIGS = ()
 CASE_TIMEOUT = 20.0
 
